@@ -323,6 +323,11 @@ def run(tier):
         k_broken = True
         k_detail["spec_full_mismatches"] = [fsrc[i] for i in mism_f[:5]]
         k_detail["errors"].append(err_f)
+    kdoc = dict(tc.K_DOC)
+    if kdoc.get("mismatches") or kdoc.get("error"):
+        k_broken = True
+        k_detail["document_tree_mismatches"] = [fsrc[i] for i in kdoc["mismatches"][:5]]
+        k_detail["errors"].append(kdoc.get("error"))
     chk.coverage["evaluations"] += len(fsrc)
     for x in fsrc[::13]:
         chk.count(("specfull", x["template"]))
@@ -378,6 +383,7 @@ def run(tier):
         "evaluate_with_python_evaluations": sum(1 for x in esrc if x["real"]["evals"] > 0),
         "spec_and_data_vm_cases": len(ssrc), "spec_mismatches": len(mism_s), "spec_skipped": sskipped,
         "spec_full_cases": len(fsrc), "spec_full_mismatches": len(mism_f), "spec_full_skipped": fskipped,
+        "document_tree_cases": kdoc.get("cases", 0), "document_tree_mismatches": len(kdoc.get("mismatches") or []),
         "spec_full_with_repeat": sum(1 for x in fsrc if "tal:repeat" in x["template"]),
         "spec_full_with_define": sum(1 for x in fsrc if "tal:define" in x["template"]),
         "repeat_variable_cases": len(pairs), "repeat_variable_mismatches": len(mism_r),
